@@ -646,9 +646,11 @@ func (d *DefaultServerDispatcher) messagePump() {
 				}
 			}
 		case clientID = <-d.readyForDispatch:
-			// Cancel previous timeout (if any)
+			// Cancel previous timeout (if any). The ready signal can arrive late: if a request is pending for the client,
+			// the active context is the one of that request (the previous one expired and the request was dispatched
+			// through a new wake-up) and must keep running, or the request never times out.
 			clientCtx, ok = clientContextMap[clientID]
-			if ok && clientCtx.isActive() {
+			if ok && clientCtx.isActive() && !d.pendingRequestState.HasPendingRequest(clientID) {
 				clientCtx.cancel()
 				clientContextMap[clientID] = clientTimeoutContext{}
 			}
